@@ -10,7 +10,7 @@ from ..runner import Sub, Violation, require
 PROPERTY = "C09"
 RULE = ("histories (Hypothesis RuleBasedStateMachine, <= 20 / 40 steps) over a bundle of "
         "generated caption sets - metacharacter texts, styles, layouts in % and px at every "
-        "level, balanced and unbalanced STYLE nodes, spans styled through named styles ('class' / 'classes' references whose few names mean different styles from set to set), captions of 16+ lines, empty languages, 1-2 "
+        "level, balanced and unbalanced STYLE nodes, near twins of earlier sets written with the same writer object (a break or blanks at an edge, style keys in another order, 1 for True), spans styled through named styles ('class' / 'classes' references whose few names mean different styles from set to set), captions of 16+ lines, empty languages, 1-2 "
         "languages, plus the caption sets the readers return for the repository's documents - and a pool of writer objects per (class, constructor options). Rules: add a "
         "set; write a set with one of the eight writers on a fresh or a pooled (previously used) "
         "writer object with generated constructor / call options; write an earlier (set, writer, "
@@ -296,6 +296,42 @@ def machine(tier, hook):
             ib = len(self.st.sets) - 1
             self._do({"op": "write", "set_i": ia, "writer": name, "ctor": ctor, "call": {}, "pooled": True})
             self._do({"op": "write", "set_i": ib, "writer": name, "ctor": ctor, "call": {}, "pooled": True})
+
+        @precondition(lambda self: len(self.st.sets) > 0)
+        @rule(data=st.data(), name=st.sampled_from(WRITERS))
+        def write_near_twin_with_same_writer(self, data, name):
+            """One writer object writes a set and then a set that differs from it in one detail a
+            lossy key would not see: a break at the edge of a caption, blanks at the edge of a
+            text, the order of the keys of a style, 1 for True."""
+            import copy
+            i = data.draw(st.integers(0, len(self.st.sets) - 1))
+            twin = copy.deepcopy(self.st.sets[i])
+            cues = [c for l in twin["langs"] for c in l["cues"]]
+            if not cues:
+                return
+            c = cues[data.draw(st.integers(0, len(cues) - 1))]
+            kind = data.draw(st.sampled_from(["tail-break", "head-break", "edge-blanks", "style-order", "one-for-true"]))
+            if kind == "tail-break":
+                c["nodes"] = c["nodes"] + [{"br": 1}]
+            elif kind == "head-break":
+                c["nodes"] = [{"br": 1}] + c["nodes"]
+            elif kind == "edge-blanks":
+                for n in c["nodes"]:
+                    if "t" in n:
+                        n["t"] = "  " + n["t"] + " "
+                        break
+            elif kind == "style-order":
+                c["style"] = dict(reversed(list((c.get("style") or {"font-size": "10px", "color": "red"}).items())))
+                base = self.st.sets[i]
+            else:
+                for n in c["nodes"]:
+                    if "s" in n:
+                        n["c"] = {k: (1 if v is True else v) for k, v in n["c"].items()}
+            ctor = data.draw(ctor_strategy(name))
+            self._do({"op": "new_set", "set": twin})
+            j = len(self.st.sets) - 1
+            self._do({"op": "write", "set_i": i, "writer": name, "ctor": ctor, "call": {}, "pooled": True})
+            self._do({"op": "write", "set_i": j, "writer": name, "ctor": ctor, "call": {}, "pooled": True})
 
         def teardown(self):
             case = {"tier": tier, "steps": self.steps}
